@@ -572,6 +572,12 @@ func (fs *fileSystem) Rename(oldname, newname string) error {
 			// Leave oldinode in olddir.
 			return oldinode, err
 		}
+		if olddirf.inode == newdirf.inode && oldname == newname {
+			// Renaming a file onto itself is a no-op.
+			// Returning nil here would delete the
+			// directory entry we just (re)assigned.
+			return oldinode, nil
+		}
 		accepted.SetParent(newdirf.inode, newname)
 		return nil, nil
 	})
